@@ -1837,8 +1837,9 @@ func (p *parser) parseOperand(lhs, allowTuple, allowCmd bool) (x ast.Expr, isTup
 		lparen := p.pos
 		p.next()
 		if allowTuple && p.tok == token.RPAREN { // () => expr
+			rparen := p.pos
 			p.next()
-			return &tupleExpr{opening: lparen, closing: p.pos}, true
+			return &tupleExpr{opening: lparen, closing: rparen}, true
 		}
 		p.exprLev++
 		x = p.parseRHSOrType() // types may be parenthesized: (some type)
@@ -1850,13 +1851,13 @@ func (p *parser) parseOperand(lhs, allowTuple, allowCmd bool) (x ast.Expr, isTup
 				p.next()
 				items = append(items, p.parseRHSOrType())
 			}
-			t := &tupleExpr{opening: lparen, items: items, closing: p.pos}
+			t := &tupleExpr{opening: lparen, items: items}
 			if p.tok == token.ELLIPSIS {
 				t.ellipsis = p.pos
 				p.next()
 			}
 			p.exprLev--
-			p.expect(token.RPAREN)
+			t.closing = p.expect(token.RPAREN) // the parenthesis itself, also after '...'
 			return t, true
 		}
 		p.exprLev--
@@ -2109,9 +2110,11 @@ func (p *parser) parseCallOrConversion(fun ast.Expr, isCmd bool) *ast.CallExpr {
 	var noParenEnd token.Pos
 	if isCmd {
 		noParenEnd = p.pos
-		if ellipsis.IsValid() { // end of the last argument, not the start of whatever follows it
+		if rparen.IsValid() { // f (a, b): the call ends with the tuple, not where the next token starts
+			noParenEnd = rparen + 1
+		} else if ellipsis.IsValid() { // end of the last argument, not the start of whatever follows it
 			noParenEnd = ellipsis + 3
-		} else if n := len(list); n > 0 && !rparen.IsValid() {
+		} else if n := len(list); n > 0 {
 			noParenEnd = list[n-1].End()
 		}
 	} else if rparen == token.NoPos {
